@@ -19,6 +19,8 @@ pub struct TextReader<R> {
     spill: [u8; SPILL_LEN],
     spill_pos: usize,
     spill_len: usize,
+    // After a failed read the decoder may have dropped input it had already taken: the stream ends.
+    failed: bool,
 }
 
 impl<R> TextReader<R>
@@ -32,6 +34,7 @@ where
             spill: [0; SPILL_LEN],
             spill_pos: 0,
             spill_len: 0,
+            failed: false,
         }
     }
 }
@@ -42,13 +45,25 @@ where
 {
     fn read(&mut self, buf: &mut [u8]) -> io::Result<usize> {
         if self.spill_pos == self.spill_len {
+            if self.failed {
+                return Ok(0);
+            }
             if buf.len() >= SPILL_LEN || buf.is_empty() {
-                return self.inner.read(buf);
+                let res = self.inner.read(buf);
+                self.failed = matches!(&res, Err(err) if err.kind() != io::ErrorKind::Interrupted);
+                return res;
             }
             // Handed a very short buffer, the decoder writes only part of a replacement
             // character (invalid UTF-8) or drops output at the end of a truncated body.
-            self.spill_len = self.inner.read(&mut self.spill)?;
             self.spill_pos = 0;
+            self.spill_len = 0;
+            match self.inner.read(&mut self.spill) {
+                Ok(n) => self.spill_len = n,
+                Err(err) => {
+                    self.failed = err.kind() != io::ErrorKind::Interrupted;
+                    return Err(err);
+                }
+            }
         }
         let n = buf.len().min(self.spill_len - self.spill_pos);
         buf[..n].copy_from_slice(&self.spill[self.spill_pos..self.spill_pos + n]);
